@@ -20,6 +20,11 @@ Interleaved histories (py/dv/c13_interleave.py): two or three readers alive at o
 namespace - lazy Tree.yield_from_files iterators stepped alternately, eager reads between two next() steps; every reader
 = the same reader run alone = (iterators) its eager TreeList.get; no container object shared by two live symbol mappers;
 keys interleaved-iterators:*.
+Shared-namespace histories (py/dv/c13_shared.py, wave 8): one text, one option set and ONE TaxonNamespace object, empty
+(falsy) or pre-populated at the first call, handed to a sequence of routes incl. the incremental DataSet.read into
+unattached / attached / already filled data sets; every delivered container is attached to that object, every node / row
+refers to a member object of it, and the same tree / row delivered by two routes refers to the same Taxon OBJECTS;
+keys shared-namespace:*.
 """
 import io
 import json
@@ -31,6 +36,7 @@ import time
 from dv import core
 from dv import trees as dvtrees
 from dv import c13_interleave as interleave
+from dv import c13_shared as shared
 from dv.core import cz, clist, copt, cbool
 
 HEADER = ("From DV Require Import Model.PyPrims Model.C13Model Model.C13CharsCase.\n"
@@ -1526,8 +1532,13 @@ def search(ctx, budget_s):
     import sys
     base = sys.modules[__name__]
     pending = interleave.fixed_cases()
+    pending_shared = shared.fixed_cases()
     while time.time() - t0 < budget_s and n < 5000:
-        if pending or n % 3 == 2:
+        if pending_shared or n % 3 == 1:
+            # shared-namespace histories: one text, one namespace object (empty or pre-populated) handed to a sequence of routes
+            case = pending_shared.pop(0) if pending_shared else shared.gen_case(rng, base)
+            vs = shared.oracle_all(case, shared.observe(case, base), base)
+        elif pending or n % 3 == 2:
             # interleaved route histories: readers alive at once, each on its own document and namespace
             case = pending.pop(0) if pending else interleave.gen_case(rng, base)
             vs = interleave.oracle_all(case, interleave.observe(case, base), base)
@@ -1539,7 +1550,7 @@ def search(ctx, budget_s):
             ctx.violation(v[0], {"case": case}, key=v[1])
         if ctx.violations:
             return
-    ctx.notes.append("search: %d further documents / interleaved histories through the oracle, no unlisted violation" % n)
+    ctx.notes.append("search: %d further documents / interleaved histories / shared-namespace histories through the oracle, no unlisted violation" % n)
 
 
 def run(tier, seed, replay=None):
@@ -1550,6 +1561,7 @@ def run(tier, seed, replay=None):
         "string / stream / path dispatch (beyond the characters handed to the tokenizer, Model/C13Newlines.v: path= = universal-newline translation, a hand transcription checked against a text-mode read of the temp file), NeXML routes, character matrices: implementation-side oracle only",
         "symbol mapper (wave 6): class NexusTaxonSymbolMapper is compiled by py/dv/gen_routes_mapper.py into Gen/RoutesMapper.v over coq/Model/C13MapPrims.v (dicts as association lists, CaseInsensitiveDict = lower-cased keys; trusted: these stated semantics, TaxonNamespace.label_taxon_map / new_taxon, case_sensitive=False folded) and proved equal to the model's mapper; the operations of C13GenPrims.v through which the block drivers use the mapper (construction, add_translate_token, lookup_taxon_symbol) are proved to be the compiled methods; bool defaults of compiled reader methods are read off the AST",
         "readers alive at once (wave 7): py/dv/gen_routes_mapper_obj.py compiles the mapper class a second time over a store of container objects (coq/Model/C13MapObjPrims.v: which container each statement allocates / rebinds / mutates in place / reads; an attribute bound in the class body and not rebound by __init__ resolves to one container shared by all instances; the value-level translator fails closed on such an attribute); Proofs/C13MapObj.v proves the object-level methods refine the value-level ones with a frame, Proofs/C13MapObjSys.v that two mappers built in one store share no table and that any interleaving of two readers' mapper steps gives each the answers of the model's mapper run alone; trusted: the store semantics (identities, allocation on {} / CaseInsensitiveDict(..), in-place [k]=v / clear()) and that a reader touches its mapper only through construction / add_translate_token / lookup_taxon_symbol / require_taxon_for_symbol; the interleaved route histories of py/dv/c13_interleave.py tie this to the library by the implementation-side oracle only (they are not run through the model)",
+        "namespace selection (wave 8): py/dv/gen_routes_select.py compiles the namespace-selection statements of DataReader.read_dataset and DataSet._parse_and_add_from_stream (= DataSet.read) into Gen/RoutesSelect.v over coq/Model/C13SelectPrims.v, where `is None` / `is` are identity of handles but a TRUTH TEST of a namespace expression (x or y, if x:, not x) is ns_truthy st x = the namespace object has members in the store st (TaxonNamespace defines __len__): None and an empty namespace are distinguished; trusted: that reading of Python truthiness, `lambda label: x` = a factory returning x (captured names are checked not to be re-bound), taxonmodel.process_kwargs_dict_for_taxon_namespace returning the keyword or None, dataio.get_reader returning an unattached reader; DataSet.read beyond the selection and every other route handed a shared namespace are tied by the shared-namespace histories of py/dv/c13_shared.py (implementation-side oracle only)",
         "translator tie (Gen/Routes.v, Props/C13Gen.v): trusted are the compiler py/dv/gen_routes.py and the stated Python meaning of the interface operations in coq/Model/C13GenPrims.v (tokenizer methods, _get_taxon_namespace, _get_taxon_symbol_mapper, _parse_translate_statement, _parse_taxa_block, _new_tree_list, _build_tree_from_newick_tree_string, comment processing, reader.read_tree_lists glue in Proofs/C13GenEntry.v route_reader); these are tied to the source by the correspondence run only",
     ]
     if replay:
@@ -1559,6 +1571,10 @@ def run(tier, seed, replay=None):
             import sys
             base = sys.modules[__name__]
             vs = interleave.oracle_all(case, interleave.observe(case, base), base)
+        elif case.get("kind") == "shared":
+            import sys
+            base = sys.modules[__name__]
+            vs = shared.oracle_all(case, shared.observe(case, base), base)
         else:
             obs = observe(case)
             vs = oracle_all(case, obs)
@@ -1629,6 +1645,22 @@ def run(tier, seed, replay=None):
         interleave.count_case(ctx, case, obs)
         for v in interleave.oracle_all(case, obs, base):
             ctx.violation(v[0], {"case": case}, key=v[1])
+    # shared-namespace histories (wave 8): one text, one set of options, ONE namespace object - empty or pre-populated
+    # when first used - handed to a sequence of routes (DataSet.read into unattached / attached / already filled data
+    # sets, DataSet.get, TreeList.get / .read, Tree.get, the iterator, TreeArray.read, CharacterMatrix.get); Taxon
+    # object identities compared across the calls.  Implementation-side oracle; the model-level statement is
+    # Props/C13Gen.v gen_explicit_namespace_is_used (compiled namespace selection of DataReader.read_dataset)
+    sh_cases = shared.fixed_cases() + [shared.gen_case(ctx.rng, base) for _ in range(1200 if tier == "quick" else 12000)]
+    for case in sh_cases:
+        try:
+            obs = shared.observe(case, base)
+        except Exception as e:
+            ctx.violation("harness could not observe a shared-namespace history: %s: %s" % (type(e).__name__, e), {"case": case}, no_input=True)
+            continue
+        ctx.evaluations += 1
+        shared.count_case(ctx, case, obs)
+        for v in shared.oracle_all(case, obs, base):
+            ctx.violation(v[0], {"case": case}, key=v[1])
     return ctx.finish(level="proof",
                       rule="documents assembled from tree statements written by the library's NewickWriter / by a spec printer using the library's token escaping, "
                            "with hand-varied structure: Newick 0-6 statements (extra semicolons, comments, missing final semicolon); NEXUS 1-3 TREES blocks, 0-2 TAXA blocks "
@@ -1641,4 +1673,9 @@ def run(tier, seed, replay=None):
                            "interleaved histories (oracle only): 2-3 readers alive at once, each on its own document (60% NEXUS with leaves named by taxon NUMBER, "
                            "with no / complete / partial TRANSLATE tables with identity, shifted, permuted or non-numeric tokens; else the generators above) and its own "
                            "namespace (a third pre-populated), the first a Tree.yield_from_files iterator, the others iterators (70%) or eager TreeList.get / Tree.get / "
-                           "DataSet.get / TreeList.read; schedules alternate / random / bursts; every reader re-observed after every step")
+                           "DataSet.get / TreeList.read; schedules alternate / random / bursts; every reader re-observed after every step; "
+                           "shared-namespace histories (oracle only): one document (generators above, Newick / NEXUS / NeXML), one option set, one TaxonNamespace object that is "
+                           "EMPTY (55%) or pre-populated with 1-4 labels at the first call, handed to 2-5 calls drawn from DataSet.read (unattached data set with the keyword, "
+                           "attached with / without the keyword, fresh or already filled data set, exclude_chars), DataSet.get, TreeList.get, TreeList.read (fresh or already "
+                           "filled list), Tree.get with offsets, Tree.yield_from_files, TreeArray.read, CharacterMatrix.get; half of the histories start with DataSet.read; "
+                           "Taxon OBJECT identities (positions in the shared namespace, all delivered objects held until the end) compared across the calls")
